@@ -14,7 +14,7 @@ from .common import Failure, f2h, h2f, parse_reply, EXEC, OUT
 ID = "C04"
 BIN = "c04"
 PROOF_MODULES = ["Compute.Props.C04", "Compute.Lemmas.C04Kernels", "Compute.Lemmas.C04Rows", "Compute.Lemmas.C04Maps",
-                 "Compute.Lemmas.C04Reductions", "Compute.Lemmas.C04Real", "Compute.Lemmas.C04Powi", "Compute.Props.C04Review"]
+                 "Compute.Lemmas.C04Reductions", "Compute.Lemmas.C04Real", "Compute.Lemmas.C04Powi", "Compute.Props.C04Review", "Compute.Props.C04Special"]
 
 # ============================================================================ translator
 TOKS = {"+": "add", "-": "sub", "*": "mul", "/": "div", "+=": "add", "-=": "sub", "*=": "mul", "/=": "div"}
@@ -531,12 +531,15 @@ REQUIRED_THEOREMS = [
     "Cv.C04.powi_two_of", "Cv.C04.powi_three_of", "Cv.C04.vpowi_eq_map_powi_of", "Cv.C04.vecMapI_eq_map_powi_of",
     "Cv.C04.matMapI_eq_map_powi_of", "Cv.C04.matrix_op_mismatch",
     "Cv.C04.logsumexpE_nil", "Cv.C04.logsumexpE_of_ne", "Cv.C04.logsumexpE_real",
+    "Cv.C04.shiftedExpSum_filter", "Cv.C04.logsumexpL_filter", "Cv.C04.logmeanexpL_counts_all", "Cv.C04.logmeanexpL_eq_logsumexpL_sub_log",
 ]
 RULE = ("all lengths 0..40 x {4 operators x every one of the 11 operator forms of Vector and of Matrix (owned/borrowed, vector, "
         "scalar-left, scalar-right, assign; all 11 in both tiers), negation, 29 unary maps, powi (exponents 0,1,2,3,-1,-2,5,..), powf, 7 reductions}, "
         "then random lengths up to 1e4; threshold-band strata: logsumexp/logmeanexp (free + Vector method) with maxima in "
         "[690, 709.78], in the underflow band [-745.2, -690], straddling +-709, lengths 1..300; map arguments at the "
-        "overflow/underflow/tiny-argument thresholds of exp, exp2, exp_m1, ln_1p, sinh, cosh, ...; every special exponent of powf "
+        "overflow/underflow/tiny-argument thresholds of exp, exp2, exp_m1, ln_1p, sinh, cosh, ...; special-entry mixes for logsumexp / "
+        "logmeanexp at lengths 1..20 (only NaN, only -inf, NaN with -inf, -inf with finite, +inf with finite, NaN with finite, all kinds; "
+        "free functions and Vector methods); every special exponent of powf "
         "(+-1/2, +-1/3, +-1/4, +-1, +-2, +-3, +-0, +-1.5, +-1e-3, +-10, +-inf, NaN) and powi (0, +-1..+-4, i32::MIN, i32::MAX) on Vector "
         "and Matrix; scalar sweeps of all 29 methods on random bit patterns / near +-1 / cubes (10x for cbrt, asinh, acosh, atanh, "
         "which the model spells itself); every request is compared with the model (no tables); every map on a list of special arguments (0, +-1, +-1/2, powers of two, multiples of pi/4, pi/6); non-trivial = distinct (request kind, operator/function, operand kinds, "
@@ -932,6 +935,47 @@ def edge_values(rng, fn, n):
     return out
 
 
+LSE_MIXES = ["only_nan", "only_ninf", "nan_ninf", "ninf_finite", "pinf_finite", "nan_finite", "all_kinds"]
+
+
+def lse_special_data(rng, mix, n):
+    """special-value mixes for logsumexp / logmeanexp: the result must not depend on WHICH entries are skipped or counted"""
+    def fin():
+        return rng.choice([0.0, -0.0, rng.normal(), rng.uniform(-5.0, 5.0), 1000.0, -1000.0, 1000.0 - rng.random(), -1000.0 + rng.random(), 709.5, -745.0])
+    if mix == "only_nan":
+        xs = [NAN] * n
+    elif mix == "only_ninf":
+        xs = [-INF] * n
+    elif mix == "nan_ninf":
+        k = rng.randint(1, n - 1) if n > 1 else 1
+        xs = [NAN] * k + [-INF] * (n - k)
+    elif mix == "ninf_finite":
+        k = rng.randint(1, n - 1) if n > 1 else 0       # 1..n-1 entries at -inf (n = 1: the single finite entry)
+        xs = [-INF] * k + [fin() for _ in range(n - k)]
+    elif mix == "pinf_finite":
+        k = rng.randint(1, max(1, n - 1))
+        xs = [INF] * k + [fin() for _ in range(n - k)]
+    elif mix == "nan_finite":
+        k = rng.randint(1, max(1, n - 1))
+        xs = [NAN] * k + [fin() for _ in range(n - k)]
+    else:
+        xs = [rng.choice([-INF, INF, NAN, -0.0, 0.0, fin(), 1000.0, -1000.0]) for _ in range(n)]
+    rng.shuffle(xs)
+    return xs
+
+
+def lse_special_lines(rng, cover, reps):
+    out = []
+    combos = [(nm, fm) for nm in ("logsumexp", "logmeanexp") for fm in ("free", "meth")]
+    for n in range(1, 21):
+        for mi, mix in enumerate(LSE_MIXES):
+            for r in range(reps):
+                for (nm, fm) in (combos if reps > 1 else [combos[(n + mi) % 4], combos[(n + mi + 2) % 4]]):
+                    out.append("red %s %s %s" % (nm, fm, V(lse_special_data(rng, mix, n))))
+                    cover["red_special_" + mix] = cover.get("red_special_" + mix, 0) + 1
+    return out
+
+
 def red_lines(rng, n, cover, names=REDS):
     out = []
     for name in names:
@@ -1033,6 +1077,13 @@ def corpus():
         "powf %s %s" % (f2h(-0.5), V([4.0, 9.0, 0.25, 2.0, 1e10, 16.0, 1.0, 3.0, 100.0])), "scalf %s %s" % (f2h(-0.5), V([4.0, 9.0, 0.25, 2.0, 1e10, 16.0, 1.0, 3.0, 100.0])[2:]),
         "powf %s %s" % (f2h(-1.0 / 3.0), M(2, 2, [8.0, 27.0, 2.0, 0.001])), "scalf %s %s" % (f2h(-1.0 / 3.0), V([8.0, 27.0, 2.0, 0.001])[2:]),
         "powf %s %s" % (f2h(0.5), V([-0.0, -INF, 4.0])), "scalf %s %s" % (f2h(0.5), V([-0.0, -INF, 4.0])[2:]),
+        # special entries of the log-domain reductions (seeded changes C04r: -inf entries dropped from the COUNT of logmeanexp;
+        # C04s: NaN-only slices answered with -inf)
+        "red logmeanexp free %s" % V([-INF, 0.0, 0.0, 0.0]), "red logmeanexp meth %s" % V([-INF, 1000.0, 1000.0, -INF]),
+        "red logmeanexp free %s" % V([1.5, -INF]), "red logsumexp meth %s" % V([-INF, -1000.0, -INF, -1000.5]),
+        "red logsumexp free %s" % V([NAN]), "red logsumexp meth %s" % V([NAN, NAN]), "red logsumexp free %s" % V([-INF, NAN]),
+        "red logmeanexp free %s" % V([NAN, -INF, NAN]), "red logsumexp free %s" % V([NAN, 1.0, -INF]),
+        "red logsumexp free %s" % V([-INF, -INF]), "red logmeanexp meth %s" % V([INF, 1.0]), "red logsumexp meth %s" % V([-INF]),
         "red max free %s" % V([0.0, -0.0]), "red max free %s" % V([-0.0, 0.0]), "red max free %s" % V([NAN, -0.0, NAN, 0.0]),
     ]
 
@@ -1053,6 +1104,7 @@ def gen(rng, tier):
         lines += red_lines(rng, n, cover)
         if not quick:
             lines += red_lines(rng, n, cover)
+    lines += lse_special_lines(rng, cover, 1 if quick else 3)
     lines += sweep_lines(rng, quick, cover)
     lines += special_pow_lines(rng, cover, 1 if quick else 4)
     lines += special_map_lines(rng, cover)
@@ -1313,8 +1365,23 @@ def check_reduction(name, xs, got_tok, n_nominal=None):
         if n == 0 and name == "logsumexp":
             return None if got_tok == f2h(-INF) else (
                 "logsumexp of the empty slice is %s; the definition ln(sum over no element) = ln 0 gives -inf (fff0000000000000)" % got_tok)
-        if n == 0 or not finite(xs):
+        if n == 0:
             return None
+        full = xs
+        if not finite(xs):
+            # special entries.  What the code (and the model: Model/VecOps.lean) computes, read off its formula:
+            #  * a NaN entry makes v - xmax NaN for that entry (xmax ignores NaN) -> the sum and the result are NaN;
+            #  * -inf entries next to at least one finite entry: xmax is finite, exp(-inf - xmax) = 0, so they add nothing to the sum
+            #    but COUNT in the length of logmeanexp -> judged against the reference with exp(-inf) = 0 and the full n;
+            #  * +inf present, or only -inf entries: inf - inf = NaN; the mathematical value is +inf resp. -inf.  Outside the stated
+            #    domain (finite log-domain inputs): NaN or that limit are both accepted, any other value is not.
+            if any(v != v for v in xs):
+                return None if got_tok == "nan" else "%s of a slice containing NaN is %s, expected NaN" % (name, got_tok)
+            if INF in xs or all(v == -INF for v in xs):
+                lim = f2h(INF if INF in xs else -INF)
+                return None if got_tok in ("nan", lim) else (
+                    "%s of a slice with %s is %s: neither NaN nor the limit value %s" % (name, "+inf" if INF in xs else "only -inf", got_tok, lim))
+            xs = [v for v in xs if v != -INF]      # at least one finite entry remains
         import mpmath
         mpmath.mp.dps = 40
         m = max(xs)
@@ -1326,7 +1393,8 @@ def check_reduction(name, xs, got_tok, n_nominal=None):
         if name == "logmeanexp":
             ref -= mpmath.log(n)
         if got != got or abs(got) == INF:
-            return "%s of finite inputs (max |x| = %.3g) is %s: overflow / invalid" % (name, max(abs(v) for v in xs), got_tok)
+            return "%s of %d entries (%d finite, max |x| = %.3g, the others -inf) is %s, reference %s: overflow / invalid" % (
+                name, n, len(xs), max(abs(v) for v in xs), got_tok, mpmath.nstr(ref, 17))
         err = abs(mpmath.mpf(got) - ref)
         # error budget: subtraction + exp (<= (745+2)u relative on each non-negligible term), sum gamma_(n-1),
         # division u, ln 2u*|ln S| <= 2u ln n, final addition u*|result|; times 20 for slack (observed max ratio 0.01)
@@ -1611,7 +1679,10 @@ NOT_PROVED = [
     "shape are not covered by a theorem (tie and C12 only)",
     "logsumexp / logmeanexp value theorems (logsumexpL_real, logsumexpE_real, logmeanexpL_real, shifted_bounds) assume non-empty input "
     "without NaN over the reals; inputs containing +inf or only -inf return NaN in the implementation (inf - inf) and are outside the stated "
-    "domain; the empty slice: logsumexp of no element is f64::NEG_INFINITY by the guard of the repaired function (F55; logsumexpE_nil is an "
+    "domain: for them the oracle accepts NaN or the limit value only; a NaN entry must give NaN and -inf entries next to a finite one are "
+    "judged with exp(-inf) = 0 and the FULL length (theorems logsumexpL_filter, logmeanexpL_counts_all for any scalar where such an entry "
+    "has a zero shifted exponential; NaN propagation itself is a Float fact observed by the tie, not proved); the empty slice: logsumexp "
+    "of no element is f64::NEG_INFINITY by the guard of the repaired function (F55; logsumexpE_nil is an "
     "rfl-level unfolding of that guard, the regression guard is the unconditional oracle check); logmeanexp of no element is undefined (0/0, "
     "NaN) and not judged",
     # --- the shared rounding layer (Props/Rounding*.lean, Lemmas/FlModel*.lean; owned by the lead / Rounding owner; required here because the
